@@ -32,8 +32,8 @@ fn c05_take_token() {
 
     let r = take_token(&env, &sender, cfg.clone(), amount);
 
-    assert!(r.is_ok(), "OBL C05.take_total: take_token fails only by trapping (token call failure)");
-    assert!(
+    soroban_sdk::obl!(r.is_ok(), "OBL C05.take_total: take_token fails only by trapping (token call failure)");
+    soroban_sdk::obl!(
         shim::n_calls() == 1
             && match cfg.token_manager_type {
                 TokenManagerType::NativeInterchainToken => shim::call_is(0, &cfg.token_address, "burn", &(sender.clone(), amount)),
@@ -41,7 +41,7 @@ fn c05_take_token() {
             },
         "OBL C05.take_exact: exactly the stated amount is taken from the sender, once — burned for a service-deployed token, moved into the service's custody for a canonical one — on the registered token address"
     );
-    assert!(frame_ok(), "OBL C05.take_frame");
+    soroban_sdk::obl!(frame_ok(), "OBL C05.take_frame");
     kani::cover!(cfg.token_manager_type == TokenManagerType::LockUnlock, "COVER take lock");
     kani::cover!(cfg.token_manager_type == TokenManagerType::NativeInterchainToken, "COVER take burn");
 }
@@ -57,8 +57,8 @@ fn c05_give_token() {
 
     let r = give_token(&env, &recipient, cfg.clone(), amount);
 
-    assert!(r.is_ok(), "OBL C05.give_total");
-    assert!(
+    soroban_sdk::obl!(r.is_ok(), "OBL C05.give_total");
+    soroban_sdk::obl!(
         shim::n_calls() == 1
             && match cfg.token_manager_type {
                 TokenManagerType::NativeInterchainToken => shim::call_is(0, &cfg.token_address, "mint", &(recipient.clone(), amount)),
@@ -66,7 +66,7 @@ fn c05_give_token() {
             },
         "OBL C05.give_exact: exactly the announced amount is credited to the recipient, once — minted for a service-deployed token, released from the service's custody for a canonical one"
     );
-    assert!(frame_ok(), "OBL C05.give_frame");
+    soroban_sdk::obl!(frame_ok(), "OBL C05.give_frame");
     kani::cover!(cfg.token_manager_type == TokenManagerType::LockUnlock, "COVER give unlock");
     kani::cover!(cfg.token_manager_type == TokenManagerType::NativeInterchainToken, "COVER give mint");
 }
